@@ -304,7 +304,7 @@ func cmdCheck(args []string) {
 	var wgk sync.WaitGroup
 	wgk.Add(2)
 	go func() { defer wgk.Done(); resKnown = dischargeAll(oblsKnown, outDir, 3) }()
-	go func() { defer wgk.Done(); resCover = dischargeAll(oblsCover, outDir, 2) }()
+	go func() { defer wgk.Done(); resCover = dischargeAll(oblsCover, outDir, 1) }()
 	res := dischargeAll(oblsMain, outDir, timeout)
 	wgk.Wait()
 	// one retry with a longer limit for undecided obligations
